@@ -18,6 +18,11 @@ PHASES = {
     "C20": [
         {"pkg": "e4", "test": "TestC20Schedules", "phase": "C20/schedules"},
         {"pkg": "e4", "test": "TestC20Race", "phase": "C20/race-pass", "race": True},
+        # the orderly stop ends every session from one goroutine while their connection workers run: all of them must end
+        {"pkg": "e2", "test": "TestC11GracefulShutdown", "phase": "C11/graceful-shutdown"},
+        # identifiers and in-flight entries while writer, sweeper, connection workers and publish workers of a whole broker
+        # run side by side (failed socket writes, acknowledgements racing with expiry): same scripts as C03
+        {"pkg": "e2", "test": "TestC03Retransmission", "phase": "C03/retransmission"},
         # state shared between CONNECTIONS (decoders, buffers of the set-up workers): a packet arriving in two pieces
         # while up to 45 other connections are set up and served must arrive intact (same paths as C18's split-packets)
         {"pkg": "e2", "test": "TestC18SplitPackets", "phase": "C18/split-packets"},
@@ -66,6 +71,7 @@ PHASES = {
         {"pkg": "e2", "test": "TestC11Lifecycle", "phase": "C11/session-lifecycle"},
         {"pkg": "e2", "test": "TestC11Pipelined", "phase": "C11/pipelined-connect"},
         {"pkg": "e2", "test": "TestC11PeersFailTogether", "phase": "C11/peers-fail-together"},
+        {"pkg": "e2", "test": "TestC11GracefulShutdown", "phase": "C11/graceful-shutdown"},
     ],
     "C05": [
         {"pkg": "e2", "test": "TestC05StoreBeforeAck", "phase": "C05/store-before-ack"},
